@@ -481,6 +481,11 @@ COQ_HEADER = ('From Scnr Require Import Base ClassAlg.\nOpen Scope N_scope.\n'
               'Set Printing Depth 1000000.\nSet Printing Width 1000000.\n')
 
 
+ANCHORED = ['\\s', '\\d', '\\w', '\\p{White_Space}']
+ANCHORED_ASCII = {'\\s': {9, 10, 11, 12, 13, 32}, '\\d': set(range(48, 58)),
+                  '\\w': set(range(48, 58)) | set(range(65, 91)) | set(range(97, 123)) | {95}}
+
+
 class C08:
     ID = 'C08'
     THEOREMS = [('Properties.C08', [
@@ -494,7 +499,8 @@ class C08:
     LEVEL = 'proof'
     ASSUMPTIONS = [
         'a named item (\\d \\s \\w, [:alpha:], \\p{..}) denotes the set its stand-alone pattern matches (observed on all '
-        '1,112,064 scalar values on every run; the Unicode tables of std/seshat are not modelled)',
+        '1,112,064 scalar values on every run; the Unicode tables of std/seshat are not modelled); anchored independently of '
+        'any table version: the ASCII parts of \\d \\s \\w are those regex-syntax documents, and \\s alone = \\p{White_Space} alone',
         'modelling decisions, not findings: an unescaped . inside brackets denotes the dot set; POSIX classes are Unicode-wide; '
         '[:blank:] = is_ascii_whitespace; [:print:] = is_ascii_graphic (each is "the set the item denotes when used alone")',
         'membership is observed as: the one-pattern scanner of the class reports a token covering the character '
@@ -666,6 +672,8 @@ class C08:
             cases.append({'pattern': text, 'origin': origin, 'ast': a, 'term': term, 'atoms': atoms,
                           'impl': to_idx_ranges(o['ranges'])})
         # the named items alone
+        for p in ANCHORED:
+            alone_needed.setdefault(p, p)
         need = [p for p in sorted(alone_needed) if p not in obs or obs[p].get('ranges') is None]
         if need:
             obs.update(self.observe(need, rdir, 'c08_named'))
@@ -677,6 +685,20 @@ class C08:
                                    'detail': {'pattern': p, 'build': o.get('build'), 'error': o.get('error')}})
                 continue
             alone[p] = to_idx_ranges(o['ranges'])
+        # anchors of the Perl classes: what a named item denotes is taken from its stand-alone scanner, but two facts about
+        # \\d \\s \\w do not depend on any Unicode table version: their ASCII part, and that \\s is the Unicode property
+        # White_Space (regex-syntax's definition of \\s in Unicode mode), which the library also offers as \\p{White_Space}
+        def ascii_part(rl):
+            return set(i for lo, hi in rl for i in range(lo, min(hi, 127) + 1) if lo <= 127)
+        for p, want in ANCHORED_ASCII.items():
+            if p in alone and ascii_part(alone[p]) != want:
+                out.violations.append({'property': 'C08', 'what': 'the ASCII part of %s used alone is %s, expected %s' % (
+                    p, sorted(ascii_part(alone[p]) ^ want), 'the set regex-syntax documents'), 'pattern': p})
+        if '\\s' in alone and '\\p{White_Space}' in alone:
+            d = first_difference(alone['\\s'], alone['\\p{White_Space}'])
+            if d is not None:
+                out.violations.append({'property': 'C08', 'what': '\\s and \\p{White_Space} used alone denote different sets: first difference at '
+                                       'U+%04X' % unidx(d), 'pattern': '\\s'})
         # blocks and representatives
         ready = []
         blocks_total = reps_total = 0
